@@ -26,9 +26,10 @@ def _stack_neutral_ops(A):
         h = machine.lookup('_' + m.lower())
         if h is None:
             continue
-        node = getattr(h, 'original_node', h.node)
+        nodes = [h.node] + ([h.original_node] if getattr(
+            h, 'original_node', None) is not None else [])
         if any(isinstance(x, ast.Attribute) and x.attr == '_vm_math'
-               for x in ast.walk(node)):
+               for nd in nodes for x in ast.walk(nd)):
             touching.add(m)
         else:
             neutral.add(m)
